@@ -54,6 +54,14 @@ fn frame(v: &V, addr: u32) -> Frame {
                 0 => 0,
                 1 => 0x00FF_FFFF_FFFF_FFFF,
                 2 => frames::mb_bds20(frames::callsign_codes("ALT20")),
+                // plausible registers of every kind the program knows
+                60 => frames::mb_bds45(1, 40, 1025, 50),
+                61 => frames::mb_bds45(3, 100, 1100, 156),
+                62 => frames::mb_bds44(30, 100, 80, 1013, 1, 30),
+                63 => crate::props::rowmodel::valid_bds50(false),
+                64 => crate::props::rowmodel::valid_bds60(true),
+                65 => frames::mb_bds30(1 << 13, 0, 0, 1, 1, 0x4CA2D6 << 2),
+                66 => frames::mb_bds17(0xFFFFFF),
                 k => 1u64 << (55 - ((k as u64 - 3) * 4)),
             };
             frames::long_ap(20, b6, mb, addr)
@@ -81,6 +89,7 @@ fn b6_for(base: u32, code: u32) -> u32 {
         1 | 2 => frames::surv_bits(7, 31, 63, code),
         // every flight-status value on its own (on the ground, alert, SPI)
         k if k >= 100 => frames::surv_bits(k - 100, 0, 0, code),
+        60..=66 => frames::surv_bits(0, 0, 0, code),
         k => (1u32 << (13 + (k - 3))) | code,
     }
 }
@@ -101,6 +110,15 @@ fn lines(v: &V, addr: u32) -> Vec<Vec<u8>> {
             l.clear();
             l.push(hexline(&frames::df11(5, addr, 0)));
             l.push(hexline(&frames::df17(5, addr, frames::me_airpos(v.tc, 0, 0, frames::ac12_for_alt(SENTINEL_ALT as i32), 0, 0, 93000, 51372))));
+        }
+        if v.pre == 6 {
+            // the row shows a squawk whose 13-bit identity field is the very bit pattern of the altitude code under test
+            l.push(hexline(&frames::df5(addr, v.code & 0x1FFF)));
+        }
+        if v.pre == 7 || v.pre == 8 {
+            // after a surface squitter of a STOPPED aircraft (movement code 1; 8: movement 0 = no information)
+            l.insert(0, hexline(&frames::df11(5, addr, 0)));
+            l.push(hexline(&frames::df17(5, addr, frames::me_surfpos(7, if v.pre == 7 { 1 } else { 0 }, 0, 0, 0, 0, 93006, 51380))));
         }
         if v.pre == 4 {
             l.insert(0, hexline(&frames::df11(5, addr, 0)));
@@ -166,7 +184,7 @@ fn run(ctx: &mut Ctx) {
             if df == 4 && base == 2 {
                 continue;
             }
-            for (update, pre) in [(false, 0u32), (true, 0), (true, 1), (true, 2), (true, 3), (true, 4)] {
+            for (update, pre) in [(false, 0u32), (true, 0), (true, 1), (true, 2), (true, 3), (true, 4), (true, 6), (true, 7), (true, 8)] {
                 if pre > 0 && base > 0 {
                     continue;
                 }
@@ -175,6 +193,17 @@ fn run(ctx: &mut Ctx) {
                 }
                 for code in 0..8192 {
                     items.push(V { df, tc: 0, code, base, update, pre });
+                }
+            }
+        }
+        // DF20 whose MB field is a plausible register (4,5 / 4,4 / 5,0 / 6,0 / 3,0 / 1,7), on a row with CA 5 and under -R
+        if df == 20 {
+            for base in 60..=66u32 {
+                for update in [false, true] {
+                    let step = if ctx.tier.thorough() { 1 } else { 3 };
+                    for code in (0..8192).step_by(step) {
+                        items.push(V { df, tc: 0, code, base, update, pre: 0 });
+                    }
                 }
             }
         }
